@@ -157,8 +157,8 @@ func (b *Bytes) store(addr model.Addr, bs []byte) int {
 	}
 
 	b.blocks = append(b.blocks, byteBlock{})
-	for i := idx; i < len(b.blocks)-1; i++ {
-		b.blocks[i+1] = b.blocks[i]
+	for i := len(b.blocks) - 1; i > idx; i-- {
+		b.blocks[i] = b.blocks[i-1]
 	}
 
 	b.blocks[idx] = byteBlock{
